@@ -56,6 +56,12 @@ checks = {
     "C20": dict(engine="gosched", cat="model_checking", tech="stateless exhaustive exploration (preemption / early-injection budget ladder, history-hash pruning) of the real instrumented manifest service + managers + watchdog under the controlled scheduler; reply channels observed through a scheduler tap",
                 text="For 18 (quick) / 23 (thorough) event menus (lease won x2, submits of valid / invalid / wrong-version manifests from concurrent clients, fetch ok/err, version update, lease closed, deployment closed, watchdog timer, shutdown; every order and every prefix) within the stated budgets: every Submit gets exactly one reply and none hangs; every ManifestReceived announcement happens with a lease held, after the chain data arrived, for a validated manifest, and announcements never go back to an older manifest.", ref="6 C20",
                 note="trusted base: gosched interleaving granularity; scripted chain query / hostname / broadcaster; D11 (shutdown request consumed in checkHostnamesForManifest) is reproduced but breaks no stated clause and is reported as a statistic"),
+    "C13": dict(engine="gosched", cat="model_checking", tech="stateless exhaustive exploration (budget ladder over preemptions / early injections, history-hash pruning with Pareto budget sets) of the real instrumented order.run + pubsub + go-lifecycle under the controlled scheduler; environment goroutine releases every scripted call ok/err and injects every terminating event at every pipeline point",
+                text="For 25 (quick) / 36 (thorough) configurations (new order / catch-up with bid found, not found, query failing) x one terminating event (order closed, lease won by us / by another provider / for another group, bid timeout, shutdown) at every point of the pipeline incl. while a call is in flight x at most 1 (2) failures: at most one MsgCreateBid, price <= group maximum, only after a successful Reserve; when handling ends without a win every successful Reserve is matched by an Unreserve and a MsgCloseBid follows every placed bid; the monitor terminates.", ref="6 C13",
+                note="trusted base: gosched interleaving granularity; scripted query / tx / cluster / pricing clients (the real pricing strategies are not in the loop); 'released' / 'closed' = the call was made"),
+    "C14": dict(engine="gosched", cat="model_checking", tech="stateless exhaustive exploration (delay-bounded budget ladder, early-injection budget, history-hash pruning) of the real instrumented cluster service + deploymentManager + hostnameService + inventoryService under the controlled scheduler with a scripted cluster client",
+                text="For 8 (quick) / 11 (thorough) configurations (1-3 manifest updates, lease closed, deploy / teardown finishing ok or with errors, shutdown) within the stated budgets: never two cluster operations for one lease overlapping, no Deploy started after the teardown request, after a close TeardownLease follows the last deploy and reservation and hostnames are released, absent close/failure the last Deploy carried the latest manifest, no INVALID STATE panic, termination after shutdown.", ref="6 C14",
+                note="trusted base: gosched interleaving granularity; scripted cluster / chain clients; the teardown obligation is evaluated for histories without a failed deploy (a failed deploy followed by no teardown is reported as an observation, as stated in DESIGN section 6)"),
 }
 
 m = {
